@@ -7,6 +7,15 @@ package core
 // so its no-panic precondition (same dynamic type or nil) is an assumption at Less's call (recorded in evidence).
 //@ func compare
 //@   pure
+//@   ensures nil_nil: a == nil && b == nil ==> result == 0
+//@   ensures nil_lt: a == nil && b != nil ==> result == -1
+//@   ensures gt_nil: a != nil && b == nil ==> result == 1
+//@   ensures int_order: isType(a, "int") && isType(b, "int") ==> result == sign(unboxInt(a) - unboxInt(b))
+//@   ensures int64_order: isType(a, "int64") && isType(b, "int64") ==> result == sign(unboxInt(a) - unboxInt(b))
+//@   ensures float_order: isType(a, "float64") && isType(b, "float64") ==> (unboxReal(a) < unboxReal(b) ==> result == -1) && (unboxReal(a) > unboxReal(b) ==> result == 1) && (unboxReal(a) == unboxReal(b) ==> result == 0)
+//@   ensures bool_order: isType(a, "bool") && isType(b, "bool") ==> (unboxBool(a) == unboxBool(b) ==> result == 0) && (unboxBool(a) && !unboxBool(b) ==> result == 1) && (!unboxBool(a) && unboxBool(b) ==> result == -1)
+//@   ensures time_order: isType(a, "time.Time") && isType(b, "time.Time") ==> result == sign(unboxInt(a) - unboxInt(b))
+//@   ensures range: result == -1 || result == 0 || result == 1
 
 //@ func (*FlatRow).Get
 //@   pureheap
